@@ -1,4 +1,4 @@
-import QP.Proofs.C08d
+import QP.Proofs.C08f
 /-!
 # Property theorems for C08 — waveforms honour their contract
 
@@ -247,6 +247,28 @@ theorem smart_eq_plain_functor (i : Wf) (fs : List (Chan × Fn)) (p s : Wf) (hi 
 theorem smart_eq_plain_reverse (i : Wf) (hi : wf i = true) : SamplesAlike (fromToReverse i) (.reversed i) :=
   smart_reverse i hi
 
+/-! ## channel subsets -/
+
+/-- `get_subset_for_channels(chs)` of a well-formed waveform is well-formed again, defines exactly the
+channels `chs`, keeps the duration, and leaves the samples of the remaining channels unchanged -/
+theorem subset_sample (w : Wf) (hw : wf w = true) (chs : List Chan) (s : Wf) (hne : chs ≠ [])
+    (h : getSubset w chs = .ok s) :
+    wf s = true ∧ duration s = duration w ∧ (∀ k, k ∈ channels s ↔ k ∈ chs) ∧
+    ∀ k, k ∈ chs → ∀ t, 0 ≤ t → t ≤ duration w → sample s k t = sample w k t :=
+  getSubset_alike w hw chs s hne h
+
+/-- the unchecked variant `unsafe_get_subset_for_channels(chs)` for `chs ⊆ defined_channels` -/
+theorem unsafe_subset_sample (w : Wf) (hw : wf w = true) (chs : List Chan) (s : Wf) (hne : chs ≠ [])
+    (hsub : ∀ c ∈ chs, c ∈ channels w) (h : unsafeSubset w chs = .ok s) :
+    wf s = true ∧ duration s = duration w ∧ (∀ k, k ∈ channels s ↔ k ∈ chs) ∧
+    ∀ k, k ∈ chs → ∀ t, 0 ≤ t → t ≤ duration w → sample s k t = sample w k t :=
+  subset_aux w hw chs s hne hsub h
+
+/-- a channel set that is not contained in the defined channels is rejected, never restricted -/
+theorem subset_rejects (w : Wf) (chs : List Chan) (h : subsetOf chs (channels w) = false) :
+    getSubset w chs = .error .keyError := by
+  simp [getSubset, h]
+
 /-! ## hypotheses are satisfiable -/
 
 /-- a nested waveform with all eleven classes is well-formed -/
@@ -264,5 +286,10 @@ example : constantValue (.seq [.multi [.const 1 2 "A", .const 1 3 "B"], .multi [
     = some 2 := by decide +kernel
 
 example : endOk [⟨0, 1, .hold⟩, ⟨1, 1, .hold⟩, ⟨2, 3, .linear⟩] := by simp [endOk]
+
+/-- `subset_sample` is not vacuous: a two-channel sequence restricted to one channel folds to a constant -/
+example : (getSubset (.seq [.multi [.const 1 2 "A", .const 1 3 "B"], .multi [.const 2 2 "A", .const 2 4 "B"]]) ["A"]
+    |>.toOption.map (fun s => (channels s, duration s, sample s "A" 3))) = some (["A"], 3, some 2) := by
+  decide +kernel
 
 end QP.Props.C08
